@@ -4,6 +4,9 @@ import Proofs.C15Struct
 import Proofs.C15CrcTable
 import Proofs.C15Crc16
 import Proofs.C15Crc8
+import Proofs.C15Riff
+import Proofs.C15Gif
+import Proofs.C15Zip
 /-!
   C15 — container decoders report what independent writers stored: property theorems.
 
@@ -332,5 +335,76 @@ theorem png_crc_invalid (typ data : Bytes) (stored : Nat) (h : stored ≠ (crc32
   have e : beNat (toBE 4 (crc32 (typ ++ data)).toNat) = (crc32 (typ ++ data)).toNat := by
     rw [beNat_toBE]; exact Nat.mod_eq_of_lt (by simpa using hc)
   simp [uintAssertBytes, toBE_length, e, h]
+
+/-! ## wav, gif, zip: writers and fq's parsers are inverse -/
+
+/-- RIFF/WAVE: a file RIFF(WAVE){ top level chunks }, every top level chunk a leaf (any four byte id but RIFF/LIST, any payload
+    its type decodes, odd sizes padded) or a LIST of leaves — any number of chunks, any sizes below 2^32-1: fq's parser yields
+    exactly the chunk events (ids, sizes, type specific fields, align bytes) in order -/
+theorem wav_roundtrip (tops : List WavTop) (ok : WavOk tops) : parseWav (writeWav tops) = some (wavEv tops) :=
+  wav_rt tops ok
+
+/-- the `fmt ` chunk in its three shapes (16 bytes; cb_size + extra bytes; WAVE_FORMAT_EXTENSIBLE) -/
+theorem wav_fmt_roundtrip (f : WavFmt) (hs : FmtShape f) (hf : FmtFits f) : parseWavFmt (writeWavFmt f) = some f :=
+  wav_fmt_rt f hs hf
+
+example : WavOk [.leaf [0x64, 0x61, 0x74, 0x61] [1, 2, 3], .list [0x49, 0x4e, 0x46, 0x4f] [([0x49, 0x41, 0x52, 0x54], [0x78, 0])]] :=
+  ⟨by
+    intro t ht
+    simp only [List.mem_cons, List.mem_nil_iff, or_false] at ht
+    rcases ht with h | h <;> subst h
+    · exact ⟨by decide, by decide, by decide, by decide, by decide⟩
+    · refine ⟨by decide, ?_, by decide⟩
+      intro l hl
+      simp only [List.mem_cons, List.mem_nil_iff, or_false] at hl
+      subst hl
+      exact ⟨by decide, by decide, by decide, by decide, by decide⟩,
+   by decide⟩
+
+/-- GIF, writer in the field order the DECODER has: header, logical screen descriptor, global colour table, any number of
+    extension and image blocks with their sub-block chains (at least one sub-block, each 1..255 bytes, zero terminator),
+    trailer — everything is read back, bytes after the trailer untouched -/
+theorem gif_blocks_roundtrip (g : GifFile) (ok : GifOk g) (rest : Bytes) : parseGif (writeGifAsIs g ++ rest) = some (g, rest) :=
+  gif_rt g ok rest
+
+/- FULL STATEMENT (false of the current code — known finding `gif-local-color-map-order`): an image written as the GIF
+   specification says (local colour table, THEN the LZW minimum code size) is reported with that code size and that table.
+   Proved instead: the specification-order bytes ARE the decoder-order bytes of the shifted view (`gifImageView`: code_size =
+   first table byte, local_color_map = rest of the table ++ [code size]), so with `gif_blocks_roundtrip` that view is exactly
+   what fq reports; without a local table the view is the image as written. -/
+theorem gif_image_order_partial (l t w h : Nat) (il : Bool) (bd : Nat) (table : Option Bytes) (cs : Nat) (subs : List GifSub) :
+    writeGifImageSpec l t w h il bd table cs subs = writeGifBlockAsIs (gifImageView l t w h il bd table cs subs) ∧
+    (table = none → gifImageView l t w h il bd table cs subs = .image 0x2c l t w h false il 0 bd cs none subs) :=
+  ⟨image_spec_asis l t w h il bd table cs subs, by intro h; subst h; rfl⟩
+
+/-- witness: a 1x1 image with a 2 colour local table (1,2,3),(4,5,6) and code size 2 is shown with code_size 1 and the
+    "table" 2,3,4,5,6,2 -/
+theorem gif_local_map_order_witness :
+    gifBlock (writeGifImageSpec 0 0 1 1 false 1 (some [1, 2, 3, 4, 5, 6]) 2 [⟨2, [0x4c, 0x01], some 0⟩]) =
+      some (.image 44 0 0 1 1 true false 0 1 1 (some [2, 3, 4, 5, 6, 2]) [⟨2, [0x4c, 0x01], some 0⟩], []) := by
+  decide +kernel
+
+/-- ZIP: any number of stored members with sizes in their local headers (no data descriptor, no extra fields), central
+    directory, end record with a comment of at most 106 bytes (fq searches the record in the last 128 bytes): fq's parser
+    (backwards search, central directory, local files at the recorded offsets) reports the end record, every central record
+    and every local file (name, method, flags, crc32, sizes, MS-DOS date and time with the derived unix time, payload) -/
+theorem zip_roundtrip (inflate : Nat → Bytes → Option (Nat × Bytes)) (ms : List ZipMember) (comment : Bytes) (ok : ZipOk ms comment) :
+    parseZip inflate (writeZip ms comment) = .ok (zipView ms comment) :=
+  zip_rt inflate ms comment ok
+
+def exZipMember : ZipMember :=
+  { name := [0x61], ftime := 0x6000, fdate := 0x8c21, lang := false, ext := 0, comment := [], data := [1, 2, 3] }
+
+/-- the hypotheses are satisfiable, and the round trip computes (kernel evaluation of the same instance) -/
+example : parseZip (fun _ _ => none) (writeZip [exZipMember] [0x68]) = .ok (zipView [exZipMember] [0x68]) := by decide +kernel
+
+/- FULL STATEMENT for streamed members (false of the current code — known finding `zip-stored-data-descriptor`): a stored
+   member written with sizes 0 in the local header and a data descriptor after the payload is reported with its payload.
+   Witness: fq takes the size 0 from the local header, shows an empty payload and reads the "descriptor" from the payload bytes. -/
+theorem zip_stored_dd_witness :
+    zipLocal (fun _ _ => none) (writeZipLocalDD exZipMember) 0 =
+      .ok { name := [0x61], method := 0, dd := true, lang := false, crc := 1438416925, csize := 0, usize := 0, uncompressed := some [],
+            compressedLen := none, di := some ⟨none, 1342374401, 487065419, 55950464⟩, date := zipDate 0x6000 0x8c21, extras := [] } := by
+  decide +kernel
 
 end Props.C15
